@@ -1,0 +1,12 @@
+//go:build verif
+
+package extendeddaemonset
+
+import (
+	generator "k8s.io/kube-state-metrics/v2/pkg/metric_generator"
+)
+
+// VerifMetricFamilies exposes the metric family generators of the ExtendedDaemonSet controller.
+func VerifMetricFamilies() []generator.FamilyGenerator {
+	return generateMetricFamilies()
+}
